@@ -379,6 +379,7 @@ func c13TimeUseSites(sc c13Script, env *c13Env, mock *mockSearch, s *vsched.Sche
 		timed, ponder bool
 		hitSeen       bool
 		timers        int
+		firstFire     time.Time
 	}
 	var gos []goCmd
 	for i, ln := range sc.Lines[:env.next] {
@@ -436,8 +437,6 @@ func c13TimeUseSites(sc c13Script, env *c13Env, mock *mockSearch, s *vsched.Sche
 		switch {
 		case !c.timed:
 			return fmt.Sprintf("hard-deadline %q is not time-controlled but a timer of %v was armed", c.line, tm.D)
-		case c.timers > 1:
-			return fmt.Sprintf("hard-deadline %q: more than one hard timer armed", c.line)
 		case c.ponder && (!c.hitSeen || tm.At.Before(c.hit)):
 			return fmt.Sprintf("hard-deadline %q: hard timer armed while still pondering (no ponderhit delivered yet)", c.line)
 		}
@@ -448,12 +447,18 @@ func c13TimeUseSites(sc c13Script, env *c13Env, mock *mockSearch, s *vsched.Sche
 		if tm.D > c.hard {
 			return fmt.Sprintf("hard-deadline %q: hard timer armed with %v, the limit computation yields %v", c.line, tm.D, c.hard)
 		}
+		// a driver may arm its timer again (e.g. a fresh timer per loop iteration): no later timer may postpone the deadline
+		if c.timers == 1 {
+			c.firstFire = tm.At.Add(tm.D)
+		} else if fire := tm.At.Add(tm.D); fire.After(c.firstFire) {
+			return fmt.Sprintf("hard-deadline %q: a timer armed again %v after the first one postpones the deadline by %v", c.line, tm.At.Sub(c.firstFire.Add(-c.hard)), fire.Sub(c.firstFire))
+		}
 		if fire := tm.At.Add(tm.D); fire.Before(event.Add(c.hard)) {
 			return fmt.Sprintf("hard-deadline %q: the hard deadline in effect lies %v after the event that starts the mover's clock, the limit computation yields %v (timer of %v armed %v after the event)", c.line, fire.Sub(event), c.hard, tm.D, tm.At.Sub(event))
 		}
 	}
 	for _, c := range gos {
-		if c.timed && !c.ponder && c.timers != 1 {
+		if c.timed && !c.ponder && c.timers < 1 {
 			return fmt.Sprintf("hard-deadline %q: time-controlled search without a hard timer", c.line)
 		}
 	}
